@@ -325,6 +325,33 @@ func (b *BoxIt) Stop() {
 	}
 }
 
+// BoxV is the element type of generators yielding struct VALUES (composite literals).
+type BoxV struct{ V int }
+
+// BoxVIt adapts an iterator of BoxV to the int protocol of the drivers.
+type BoxVIt struct {
+	In interface {
+		MoveNext() bool
+		Current() BoxV
+	}
+	cur int
+}
+
+func (b *BoxVIt) MoveNext() bool {
+	ok := b.In.MoveNext()
+	b.cur = 0
+	if ok {
+		b.cur = b.In.Current().V
+	}
+	return ok
+}
+func (b *BoxVIt) Current() int { return b.cur }
+func (b *BoxVIt) Stop() {
+	if s, ok := b.In.(interface{ Stop() }); ok {
+		s.Stop()
+	}
+}
+
 // YF is `YieldFrom(it)` of the native rendering.
 func YF(yield func(int) bool, it *NIter) {
 	for it.MoveNext() {
